@@ -192,7 +192,36 @@ def native_replay(scenario, timeout=3600):
 
 
 def replay_file(path):
+    """`check <ID> --replay <file>`: re-run a recorded counterexample scenario against the real code"""
     rec = json.load(open(path))
-    res = native_replay(rec["scenario"])
-    print(json.dumps(res))
-    return 1 if res.get("violates") else 0
+    sc = rec.get("scenario", {})
+    kind = sc.get("kind", "")
+    sys.path.insert(0, os.path.join(VERIF, "props"))
+    if kind == "lsp_session":
+        import c24
+        import lspdrive
+        exe = c24.build_ls()
+        res = lspdrive.run_session(exe, c24.SESSION, c24.IDS, timeout=15)
+        counts = {str(i): len(res["responses"].get(str(i), [])) for i in c24.IDS}
+        for name, fn in (("cancel_during_init", lspdrive.session_cancel_during_init), ("cancel_in_flight", lspdrive.session_cancel_in_flight)):
+            for i, c in fn(exe).items():
+                counts["%s:%s" % (name, i)] = c
+        bad = {i: c for i, c in counts.items() if c != 1 and not i.endswith("setup_failed")}
+        print(json.dumps({"responses_per_id": counts, "violates": bool(bad)}))
+        return 1 if bad else 0
+    if kind == "emmylua_check_battery":
+        import c36
+        exe = c36.build_check_bin()
+        res = c36.battery(exe)
+        print(json.dumps([(r[0], r[2], r[3]) for r in res]))
+        return 1 if any(r[2] for r in res) else 0
+    if kind == "config_load":
+        import c31
+        return c31.replay_scenario(sc)
+    res = native_replay(sc)
+    print(json.dumps(res)[:3000])
+    exp = rec.get("expect")
+    if exp and "code" in exp:
+        reported = any(d["code"] == exp["code"] for d in res.get("diagnostics", []))
+        return 1 if reported == exp.get("reported") else 0
+    return 1 if rec.get("violates") else 0
